@@ -282,10 +282,12 @@ theorem specFileAt_congr (d : FileDoc) (i₁ i₂ : Info) (h : ∀ k, i₁.getLi
 /-- **C14.package** (generic) — for templates passing `docsOk`: whatever metadata is sent, the run
 is refused exactly when the metadata is bad, and otherwise every documented file carries the lines
 of the effective blocks (after the query's own lines) once, in block-then-line order, verbatim, at
-the documented places. -/
+the documented places; where every field has to be honoured (`placed = some _`) no block carries
+lines in a field without a place. -/
 theorem package (fields : List String) (files : List (String × Template)) (docs : List FileDoc)
-    (h : docsOk files docs = true) (mds : List Md) (base : Base) :
-    SpecOutcome fields docs (witOf files) mds base (outcomeOf (runPackage fields files mds base)) := by
+    (placed : Option (List String)) (h : docsOk files docs = true)
+    (hpl : ∀ ps, placed = some ps → ∀ f ∈ fields, f ∈ ps) (mds : List Md) (base : Base) :
+    SpecOutcome fields docs placed (witOf files) mds base (outcomeOf (runPackage fields files mds base)) := by
   unfold runPackage
   cases hp : processMd fields mds [] with
   | error e =>
@@ -294,28 +296,36 @@ theorem package (fields : List String) (files : List (String × Template)) (docs
   | ok bs =>
     obtain ⟨rfl, hnb⟩ := dedup_conflict fields mds bs hp
     simp only [outcomeOf, SpecOutcome]
-    refine ⟨hnb, fun d hd => ?_⟩
+    refine ⟨hnb, ?_, fun d hd => ?_⟩
+    · unfold NoLostLines
+      split
+      · trivial
+      · rename_i ps
+        intro b _ f hf _
+        exact hpl ps rfl f hf
     exact specFileAt_congr d _ _ (mkInfo_getList base _) _ _
       (render_shape files docs h (mkInfo base (effective fields mds)) d hd)
 
 /-- **C14.package_atlas** — the ATLAS package generator, with the templates and the dataclass
 fields as they are in the repository now. -/
 theorem package_atlas (mds : List Md) (base : Base) :
-    SpecOutcome injectFields atlasDocs (witOf atlasFiles) mds base
+    SpecOutcome injectFields atlasDocs atlasPlaced (witOf atlasFiles) mds base
       (outcomeOf (runPackage injectFields atlasFiles mds base)) :=
-  package injectFields atlasFiles atlasDocs atlas_docs_ok mds base
+  package injectFields atlasFiles atlasDocs atlasPlaced atlas_docs_ok
+    (by intro ps hps f hf; simp only [atlasPlaced, Option.some.injEq] at hps; rw [← hps, ← fields_documented.1]; exact hf)
+    mds base
 
 /-- **C14.package_cms_aod** — on CMS AOD the body includes are honoured. -/
 theorem package_cms_aod (mds : List Md) (base : Base) :
-    SpecOutcome injectFields cmsDocs (witOf cms_aodFiles) mds base
+    SpecOutcome injectFields cmsDocs none (witOf cms_aodFiles) mds base
       (outcomeOf (runPackage injectFields cms_aodFiles mds base)) :=
-  package injectFields cms_aodFiles cmsDocs cms_aod_docs_ok mds base
+  package injectFields cms_aodFiles cmsDocs none cms_aod_docs_ok (by intro ps h; cases h) mds base
 
 /-- **C14.package_cms_miniaod** — on CMS miniAOD the body includes are honoured. -/
 theorem package_cms_miniaod (mds : List Md) (base : Base) :
-    SpecOutcome injectFields cmsDocs (witOf cms_miniaodFiles) mds base
+    SpecOutcome injectFields cmsDocs none (witOf cms_miniaodFiles) mds base
       (outcomeOf (runPackage injectFields cms_miniaodFiles mds base)) :=
-  package injectFields cms_miniaodFiles cmsDocs cms_miniaod_docs_ok mds base
+  package injectFields cms_miniaodFiles cmsDocs none cms_miniaod_docs_ok (by intro ps h; cases h) mds base
 
 /-- the place table is consistent with the documentation: field ↦ variable is the one
 `expectedInfo` uses and the (file, variable) slot is documented -/
